@@ -433,6 +433,20 @@ Definition hist_model (c : World.world * list op) : list value :=
                              {'op': 'build', 'base': base}, {'op': 'value', 'chain': 0, 'pick': 2},
                              {'op': 'flags', 'chain': 0}, {'op': 'value', 'chain': 0, 'pick': 1},
                              {'op': 'build', 'base': base}, {'op': 'value', 'chain': 1, 'pick': 2}]))
+        # one task class under two namespaces with different downstream: forcing one, then the other
+        two = [dict(K(0, 'Dataset', params=[P('size')]), name='dataset'),
+               dict(K(1, 'Model', meta_inputs=[{'name': 'train::dataset'}]), name='model')]
+        twobase = {'name': 'main', 'data': {'tasks': ['@M.Model'], 'uses': ['d.json as train', 'd.json as test']}}
+        twoctx = {'dict': {'for_namespaces': {'train': {'size': 1}, 'test': {'size': 2}}}}
+        for first, second in ((2, 0), (0, 2)):      # task order of the chain: train::dataset, model, test::dataset
+            out.append(dict(classes=two, files={'d.json': {'tasks': ['@M.Dataset'], 'size': 0}}, base=twobase, context=twoctx,
+                            ops=[{'op': 'build', 'base': twobase}, {'op': 'value', 'chain': 0, 'pick': 1},
+                                 {'op': 'value', 'chain': 0, 'pick': 2},
+                                 {'op': 'force_chain', 'chain': 0, 'picks': [first], 'recompute': False, 'delete': False},
+                                 {'op': 'flags', 'chain': 0},
+                                 {'op': 'force_chain', 'chain': 0, 'picks': [second], 'recompute': False, 'delete': True},
+                                 {'op': 'flags', 'chain': 0}, {'op': 'has_data', 'chain': 0, 'pick': 1},
+                                 {'op': 'value', 'chain': 0, 'pick': 1}, {'op': 'value', 'chain': 0, 'pick': 2}]))
         # a namespace whose name is a textual prefix of an input's name, with a same-named task at the root
         tx = [dict(K(0, 'TrainX', params=[P('seed')]), name='train_x'), dict(K(1, 'Model', meta_inputs=[{'cls': 0}]), name='model')]
         nsbase = {'name': 'main', 'data': {'tasks': ['@M.TrainX'], 'seed': 1, 'uses': 'inner.json as train'}}
